@@ -165,6 +165,7 @@ def _retry_alone(leg, case, budget):
                 j = json.loads(line)
             except Exception:
                 continue
+            t0 = time.time()  # any protocol line (begin / tick / end) is progress: the budget is a quiescence bound
             if j["ev"] == "begin":
                 desc = j.get("desc")
             elif j["ev"] == "end":
